@@ -230,3 +230,6 @@ def check_one(case):
                              f"{key}: shown {g!r} want {e!r} cells={cells} dl={case['dl']} delim={case['delim']}"))
                 break
     return {"outcome": "ok", "nt": len(langs) >= 2 and not viol, "viol": viol, "tr": ntr}
+
+# as-built additions of the seventh wave (reported with the bound in the evidence)
+BOUND = {k: v + "; seventh wave: " + 'legacy loops over lists in 1-3 languages with %(label)s / %(name)s in translated label / hint cells' for k, v in BOUND.items()}
